@@ -202,7 +202,7 @@ def run_eq(c):
 # ------------------------------------------------------------------------------------------- simplices, segments, cuboids, regular polygons
 @st.composite
 def solid_case(draw, tier="quick"):
-    what = draw(st.sampled_from(["segment", "triangle2", "triangle3", "tetrahedron", "cuboid", "regular2", "regular3", "polyhedron_eq"]))
+    what = draw(st.sampled_from(["segment", "triangle2", "triangle3", "tetrahedron", "cuboid", "regular2", "regular3", "polyhedron_eq", "concave_prism"]))
     return {"what": what, "v": [draw(C.ints(6)) for _ in range(12)], "n": draw(st.integers(3, 9)), "r": draw(st.sampled_from([1, 2, 3, 0.5, 2.5])), "perm": draw(st.permutations(range(6))),
             "lens": [draw(st.integers(1, 4)) for _ in range(3)], "coll": draw(st.booleans()), "s": [draw(C.scale()) for _ in range(4)],
             "derive": draw(st.sampled_from([None, None, "translation*", "+point", "scaling*", "k*identity"])), "move": [draw(st.integers(-4, 4)) for _ in range(3)],
@@ -377,6 +377,43 @@ def _run_solid(c, what, v, ck, der):
                 ck.add(f)
             else:
                 ck.check(not bool(r), "polyhedron-eq:different-cuboid")
+        return ck.result()
+    if what == "concave_prism":
+        # a prism over a concave quadrilateral (arrowhead / dart), every face listed from an arbitrary start vertex and in either
+        # direction: area = 2 * base + perimeter * height (the faces are concave quadrilaterals and rectangles)
+        u, w, x = orth_frame(v)
+        eu, ew, ex = u / np.linalg.norm(u), w / np.linalg.norm(w), x / np.linalg.norm(x)
+        o = np.array(v[6:9], float)
+        k, hgt = float(c["lens"][0]), float(c["lens"][1])
+        darts = [[(0, 2), (2, -2), (0, -1), (-2, -2)], [(0, 0), (4, 0), (1, 1), (0, 4)], [(0, 0), (3, 1), (6, 0), (3, 5)]]
+        base2 = [(k * a, k * b) for a, b in darts[abs(v[9]) % 3]]
+        emb = lambda p, z: o + p[0] * eu + p[1] * ew + z * ex  # noqa: E731
+        bot = [emb(p, 0.0) for p in base2]
+        top = [emb(p, hgt) for p in base2]
+        faces = [bot[::-1], top] + [[bot[i], bot[(i + 1) % 4], top[(i + 1) % 4], top[i]] for i in range(4)]
+        rolled = []
+        for j, fc in enumerate(faces):
+            fc = fc[(c["perm"][j] % 4):] + fc[: (c["perm"][j] % 4)]
+            if c["w"][j % 4] < 0:
+                fc = fc[::-1]
+            rolled.append(np.array([np.append(q, 1.0) * (sc[(j + i) % 4] if c["coll"] else 1.0) for i, q in enumerate(fc)]))
+        ph, f = call("Polyhedron(concave prism)", lambda: Polyhedron(np.stack(rolled)))
+        if f:
+            return [f]
+        ph = der(ph)
+        area2 = abs(sum(base2[i][0] * base2[(i + 1) % 4][1] - base2[(i + 1) % 4][0] * base2[i][1] for i in range(4))) / 2
+        per = sum(math.hypot(base2[(i + 1) % 4][0] - base2[i][0], base2[(i + 1) % 4][1] - base2[i][1]) for i in range(4))
+        want = 2 * area2 + per * hgt
+        a, f = call("Polyhedron.area", lambda: ph.area)
+        if f:
+            ck.add(f)
+        else:
+            ck.check(close(a, want, 1e-6), "concave-prism:area", (float(a), want, [int(x) % 4 for x in c["perm"]]))
+        fa, f = call("faces.area", lambda: ph.faces.area)
+        if f:
+            ck.add(f)
+        else:
+            ck.check(close(float(np.sum(fa)), want, 1e-6), "concave-prism:sum-of-face-areas", (np.asarray(fa).tolist(), want))
         return ck.result()
     if what in ("regular2", "regular3"):
         n, r = c["n"], c["r"]
